@@ -427,7 +427,7 @@ PROPS["C09"]["rule"] += (" || the text functions of task.rs alone (mode showinc)
     "{a, LF, CR, blank, 'Note: including file: ', 'Note: '} and 3000 / 60000 random compiler outputs whose notes name files with arbitrary bytes "
     "(Latin-1, invalid UTF-8, multi-byte), CR LF / LF ends; monitor notesAllReported: the reported list is exactly the notes' payloads.")
 PROPS["C12"]["claim"] += (" PARSE-ERROR OFFSETS (parse_errors_are_rendered): every error the manifest parser returns carries an offset inside the "
-    "buffer (<= its size), so the text shown is format_parse_error inside the range format_total covers.")
+    "buffer (<= its size), so the text shown is format_parse_error inside the range format_total covers; the same bound for depfile parse errors (depfile_parse_total).")
 PROPS["C12"]["modes"] = PROPS["C12"]["modes"] + ["diag"]
 PROPS["C12"]["needs_n2bin"] = True
 PROPS["C12"]["nontrivial"]["diag"] = (lambda case, impl: True)
